@@ -60,6 +60,9 @@ impl Acc {
             self.viols.push(Viol { msg, case });
         }
     }
+    pub fn first_violation(&self) -> Option<String> {
+        self.viols.first().map(|v| v.msg.clone())
+    }
     pub fn known(&mut self, id: &str, witness: impl FnOnce() -> String) {
         let e = self.known.entry(id.to_string()).or_insert_with(|| (0, String::new()));
         if e.0 == 0 {
